@@ -26,6 +26,8 @@ pub struct Parser<'a> {
     /// failed. Re-parsing an enclosing construct must not repeat the attempt, otherwise an
     /// error deep inside nested parentheses doubles the work at every level.
     failed_arrow_starts: FxHashSet<usize>,
+    /// Offsets of `<` tokens where a generic-arrow-function attempt already failed
+    failed_generic_arrow_starts: FxHashSet<usize>,
     /// Result of `token_after_matching_paren` per `(` start offset (the scan is linear in the
     /// length of the group, so it is done once per group even when the group is re-parsed).
     paren_follow_cache: FxHashMap<usize, Option<TokenKind>>,
@@ -47,6 +49,7 @@ impl<'a> Parser<'a> {
             no_in: false,
             nesting: 0,
             failed_arrow_starts: FxHashSet::default(),
+            failed_generic_arrow_starts: FxHashSet::default(),
             paren_follow_cache: FxHashMap::default(),
         }
     }
@@ -2554,6 +2557,12 @@ impl<'a> Parser<'a> {
     /// Try to parse `<T, ...>(params) => body`: a type parameter list followed by an arrow
     /// function. Returns None (position restored) for anything else.
     fn try_parse_generic_arrow_function(&mut self) -> Result<Option<Expression>, JsError> {
+        // An attempt that failed here before fails again: do not repeat it when an enclosing
+        // construct is re-parsed (keeps erroneous deep nests polynomial)
+        let start_offset = self.current.span.start;
+        if self.failed_generic_arrow_starts.contains(&start_offset) {
+            return Ok(None);
+        }
         let saved_current = self.current.clone();
         let saved_previous = self.previous.clone();
         let checkpoint = self.lexer.checkpoint();
@@ -2580,6 +2589,7 @@ impl<'a> Parser<'a> {
                 return Ok(Some(expr));
             }
         }
+        self.failed_generic_arrow_starts.insert(start_offset);
         self.current = saved_current;
         self.previous = saved_previous;
         self.lexer.restore(checkpoint);
